@@ -25,7 +25,7 @@ const fn x(rust: &'static str, copy: bool, droppable: bool, clone_ok: bool) -> M
     MenuEntry { rust, copy, token: false, zst_counted: false, droppable, serde_ok: false, clone_ok }
 }
 
-pub const MENU: [MenuEntry; 44] = [
+pub const MENU: [MenuEntry; 45] = [
     e("u8", true, false, false, false, true),
     e("u16", true, false, false, false, true),
     e("u32", true, false, false, false, true),
@@ -70,6 +70,7 @@ pub const MENU: [MenuEntry; 44] = [
     x("vtypes::string::String<8>", true, false, true),
     e("vtypes::Tok256", false, true, false, true, true),
     e("vtypes::A128", true, false, false, false, true),
+    x("&'static mut u32", false, false, false),
 ];
 
 /// Evaluates `$body` with `$t` bound to the menu type of index `$idx`.
@@ -120,7 +121,8 @@ macro_rules! with_menu_type {
             40 => { type $t = Box<dyn Fn(u32) -> u32 + Send + Sync>; $body }
             41 => { type $t = $crate::string::String<8>; $body }
             42 => { type $t = $crate::Tok256; $body }
-            _ => { type $t = $crate::A128; $body }
+            43 => { type $t = $crate::A128; $body }
+            _ => { type $t = &'static mut u32; $body }
         }
     };
 }
